@@ -58,6 +58,28 @@ func genC05(t *rapid.T) Case {
 	c.Sched = drawSched(t, n)
 	c.Crashes = drawCrashes(t, n, 60)
 	c.YieldOnWrite = rapid.IntRange(0, 3).Draw(t, "yieldOnWrite") == 0
+	if rapid.IntRange(0, 5).Draw(t, "disjointFamily") == 0 {
+		// family: compactions of arbitrary (often disjoint) ranges racing on a deep stack
+		c.InitAuto = false
+		c.Init = nil
+		for i := 0; i < 5; i++ {
+			tx := drawTx(t, "init/d"+strconv.Itoa(i), hs, c.Cfg.Exact)
+			c.Init = append(c.Init, InitOp{Tx: &tx})
+		}
+		c.Crashes = nil
+		n = rapid.IntRange(2, 3).Draw(t, "nprocsD")
+		c.Progs = drawProgs(t, n, 2, []OpWeights{{KCompactRange: 6, KAdd: 2, KCompactAll: 1}}, hs, c.Cfg.Exact)
+		for p := range c.Progs {
+			c.Progs[p].Ops = append([]POp{{Kind: KOpen}}, c.Progs[p].Ops...)
+		}
+		c.Sched = drawSched(t, n)
+		if rapid.Bool().Draw(t, "explicitDisjoint") {
+			lo := rapid.IntRange(0, 1).Draw(t, "lo")
+			c.Progs[0].Ops[1] = POp{Kind: KCompactRange, A: lo, B: lo + 1}
+			c.Progs[1].Ops[1] = POp{Kind: KCompactRange, A: lo + 2, B: lo + 2 + rapid.IntRange(0, 1).Draw(t, "w")}
+			c.Sched = SchedSpec{Kind: "windowed", Order: drawPerm(t, n), K: []int{rapid.IntRange(6, 20).Draw(t, "k0"), rapid.IntRange(0, 30).Draw(t, "k1")}[:n-1]}
+		}
+	}
 	return c
 }
 
@@ -73,7 +95,7 @@ func TestC05(t *testing.T) { withEnumeration(t, "C05", Monitors{M5: true, Probe:
 
 // ---------------- C08: locks are exclusive and only released by their owner
 
-var contention = OpWeights{KAdd: 6, KAddMulti: 1, KCompactAll: 5, KAutoCompact: 3, KClean: 1, KAbandon: 1}
+var contention = OpWeights{KAdd: 6, KAddMulti: 1, KCompactAll: 5, KAutoCompact: 3, KClean: 1, KAbandon: 1, KCompactRange: 4}
 
 func genC08(t *rapid.T) Case {
 	c := Case{Cfg: drawConcCfg(t)}
@@ -104,7 +126,7 @@ func TestC08(t *testing.T) { withEnumeration(t, "C08", Monitors{M8: true}, genC0
 // ---------------- C10: a handle's view is one committed snapshot under churn
 
 var readerOps = OpWeights{KOpen: 3, KRead: 4, KAdd: 3, KAutoCompact: 1}
-var writerOps = OpWeights{KAdd: 5, KCompactAll: 5, KAutoCompact: 2, KAddMulti: 1, KExpire: 1}
+var writerOps = OpWeights{KAdd: 5, KCompactAll: 5, KAutoCompact: 2, KAddMulti: 1, KExpire: 1, KCompactRange: 4}
 
 func genC10(t *rapid.T) Case {
 	c := Case{Cfg: drawConcCfg(t)}
